@@ -204,3 +204,10 @@ Example C05_traverse_example :
   traverse_check_string_b [128; 0; 0; 1; 80; 0; 0; 4; 160; 0; 0; 1] (fun _ => false) = Panic /\
   traverse_check_string_b [128; 0; 0; 2; 80; 0; 0; 0] (fun _ => false) = Ok false.
 Proof. vm_compute. repeat split; reflexivity. Qed.
+
+(* on EVERY buffer, valid or not, the traversal model ends with a boolean or a panic: the recursion fuels of the model
+   (entry loop, level loop) are never what decides, so the model has no outcome the code does not have *)
+Theorem C05_traverse_check_string_fuel_is_enough : forall bs f,
+  (exists b, traverse_check_string_b bs f = Ok b) \/ traverse_check_string_b bs f = Panic.
+Proof. exact traverse_check_string_b_total. Qed.
+Print Assumptions C05_traverse_check_string_fuel_is_enough.
